@@ -79,7 +79,7 @@ SwapData(m, a, b) ==
                                    ![b] = [ca EXCEPT !.s = cb.s, !.st = cb.st]]]
 
 MInit ==
-    [ nsys |-> 0, nonce |-> 0, nworld |-> 0, neworld |-> 0,
+    [ nsys |-> 0, nonce |-> 0, nworld |-> 0, neworld |-> 0, hier |-> 0, nent |-> 0,
       alive |-> {}, aliveE |-> {},
       reg |-> <<>>,        \* abstract registration table: [id, s, kd, ty, e, h]
       nid |-> 0, nh |-> 0,
@@ -175,6 +175,13 @@ KillEntity(m, e) ==
                         !.elocal = IF e \in DOMAIN @ THEN [@ EXCEPT ![e] = 0] ELSE @]
     IN Redoom(m1)
 
+(* despawn_recursive: listed children first, then the entity; nothing happens below a child that is already gone *)
+RECURSIVE KillEntityRec(_, _)
+KillEntityRec(m, e) ==
+    IF e \notin m.aliveE THEN m
+    ELSE LET c == IF e + 1 <= m.hier /\ e + 1 <= m.nent THEN e + 1 ELSE 0
+         IN KillEntity(IF c # 0 THEN KillEntityRec(m, c) ELSE m, e)
+
 (* component c removed from living entity e *)
 RemoveComp(m, e, c) ==
     IF Get(m.comp, <<e, c>>, 0) = 0 THEN m
@@ -219,7 +226,7 @@ ReleaseReader(m, c) ==
 (* handlers *)
 
 OnCfg(m, o) ==
-    [m EXCEPT !.nsys = o.nsys, !.nonce = o.nonce, !.nworld = o.nworld, !.neworld = o.neworld,
+    [m EXCEPT !.nsys = o.nsys, !.nonce = o.nonce, !.nworld = o.nworld, !.neworld = o.neworld, !.hier = o.hier, !.nent = o.nent,
               !.alive = (1..o.nsys) \cup ((o.nsys + o.nonce + 1)..(o.nsys + o.nonce + o.nworld + o.neworld)),
               !.aliveE = 1..o.nent]
 
@@ -281,6 +288,10 @@ ApplyEffects(m, op, ret) ==
       [] n = "once" -> AddReg([m EXCEPT !.alive = @ \cup {op[2]}, !.once = @ \cup {op[2]}], op[2], op[3], TRUE)
       [] n = "revoke" -> IF op[2] \in DOMAIN m.tok THEN Revoke(m, m.tok[op[2]].s, m.tok[op[2]].b) ELSE m
       [] n = "desp" -> IF ret = 1 /\ op[2] \in m.aliveE THEN KillEntity(m, op[2]) ELSE m
+      [] n = "desprec" -> IF ret = 1 THEN KillEntityRec(m, op[2]) ELSE m
+      [] n = "xdesp" -> IF op[2] \in m.aliveE THEN KillEntity(m, op[2]) ELSE m
+      [] n = "xdesprec" -> KillEntityRec(m, op[2])
+      [] n = "xrm" -> IF op[2] \in m.aliveE THEN RemoveComp(m, op[2], op[3]) ELSE m
       [] n = "despsys" -> IF ret = 1 THEN KillSys(m, op[2]) ELSE m
       [] n = "rm" -> IF ret = 1 /\ op[2] \in m.aliveE THEN RemoveComp(m, op[2], op[3]) ELSE m
       [] n = "ins" -> IF ret = 1 /\ op[2] \in m.aliveE THEN [m EXCEPT !.comp = Put(@, <<op[2], op[3]>>, op[4])] ELSE m
@@ -324,7 +335,7 @@ OnDone(m, o) ==
     THEN V(m, "C09", "done marker does not close the innermost open op")
     ELSE
     LET n == OpName(t.op)
-        acc == n \in {"resmut", "resset", "resno", "ins", "mut", "set", "noreact", "trig", "rm"}
+        acc == n \in {"resmut", "resset", "resno", "ins", "mut", "set", "noreact", "trig", "rm", "xrm"}
         m1a == Chk(m, t.ns = t.exp, IF acc THEN "C14" ELSE "C01", "op caused the wrong number of trigger dispatches")
         m1 == IF t.ns # t.exp /\ n = "ins" /\ t.op[2] \notin m.aliveE
               THEN V(m1a, "C18", "an insertion on a despawned entity dispatched a reaction") ELSE m1a
@@ -578,21 +589,23 @@ OnExit(m, o) ==
     IN Pop(m2)
 
 OnGc(m, o) ==
-    LET all == Elems(o.d)
-        d == { x \in all : x < 100 }                        \* systems
-        dE == { x - 100 : x \in { y \in all : y > 100 } }    \* plain entities (auto-despawn signal released with a payload)
-        exp == m.doomed \cap m.alive
-        expE == m.doomedE \cap m.aliveE
-        m1a == Chk(m, d \subseteq exp, "C07", "garbage collection despawned a reactor that still has a trigger (or is persistent)")
-        m1 == IF \E s \in (d \ exp) : s \in m.once /\ s \notin m.onceRan
-              THEN V(m1a, "C15", "a one-off reactor was despawned before any of its triggers fired") ELSE m1a
-        m2 == Chk(m1, exp \subseteq d, "C07", "garbage collection missed a reactor whose last trigger is gone")
+    (* garbage collection is a loop: despawning one entity may release the last handle of a reactor (or the last signal  *)
+    (* of another entity), which the same collection then despawns too.  The record lists what was despawned, in order. *)
+    LET step(acc, x) ==
+            IF x > 100
+            THEN LET e == x - 100
+                     a1 == Chk(acc, e \in acc.doomedE, "C08", "garbage collection despawned an entity whose signal is still held")
+                 IN [KillEntityRec(a1, e) EXCEPT !.doomedE = @ \ {e}]
+            ELSE LET ok == x \in acc.doomed
+                     a1 == Chk(acc, ok, "C07", "garbage collection despawned a reactor that still has a trigger (or is persistent)")
+                     a2 == IF ~ok /\ x \in acc.once /\ x \notin acc.onceRan
+                           THEN V(a1, "C15", "a one-off reactor was despawned before any of its triggers fired") ELSE a1
+                 IN [a2 EXCEPT !.alive = @ \ {x}, !.doomed = @ \ {x}]
+        m1 == FoldSeq(step, m, o.d)
+        m2 == Chk(m1, m1.doomed \cap m1.alive = {}, "C07", "garbage collection missed a reactor whose last trigger is gone")
         m3 == Chk(m2, o.closed = 1, "C18", "garbage collection did not complete")
-        m4 == Chk(m3, dE \subseteq expE, "C08", "garbage collection despawned an entity whose signal is still held")
-        m5 == Chk(m4, expE \subseteq dE, "C08", "garbage collection missed an entity whose last signal was released")
-        \* despawning a plain entity: its components are removed, its registrations die, its despawn reactors are owed
-        m7 == FoldSeq(LAMBDA acc, x : IF (x - 100) \in acc.aliveE THEN KillEntity(acc, x - 100) ELSE acc, m5, SelectSeq(o.d, LAMBDA x : x > 100))
-    IN [m7 EXCEPT !.alive = @ \ d, !.doomed = {}, !.doomedE = {}]
+        m4 == Chk(m3, m3.doomedE \cap m3.aliveE = {}, "C08", "garbage collection missed an entity whose last signal was released")
+    IN [m4 EXCEPT !.doomed = {}, !.doomedE = {}]
 
 OnPoll(m, o) ==
     Push([m EXCEPT !.pendRem = [ i \in DOMAIN @ |-> [@[i] EXCEPT !.seen = TRUE] ],
